@@ -20,6 +20,7 @@ import (
 	"github.com/makiuchi-d/gozxing/common"
 	rs "github.com/makiuchi-d/gozxing/common/reedsolomon"
 	"github.com/makiuchi-d/gozxing/datamatrix"
+	"github.com/makiuchi-d/gozxing/oned"
 	"github.com/makiuchi-d/gozxing/qrcode"
 	qrdec "github.com/makiuchi-d/gozxing/qrcode/decoder"
 	qrenc "github.com/makiuchi-d/gozxing/qrcode/encoder"
@@ -48,7 +49,7 @@ var families = map[string]string{
 	"oned_rt": "oned_tables", "rs": "rs_fields", "eci": "charsets", "aztec": "rs_fields",
 }
 
-var opKinds = []string{"qr_enc", "qr_rt", "qr_hint", "qr_eci", "dm_enc", "dm_rt", "oned_rt", "rs", "eci", "aztec"}
+var opKinds = []string{"qr_enc", "qr_rt", "qr_hint", "qr_eci", "upcean_multi", "dm_enc", "dm_rt", "oned_rt", "rs", "eci", "aztec"}
 
 func digestMatrix(bm *gozxing.BitMatrix) string {
 	h := fnv.New64a()
@@ -183,11 +184,38 @@ func run(op Op) string {
 			return "err:" + err.Error()
 		}
 		return digestMatrix(bm) + "|" + r.GetText()
-	case "oned_rt":
-		names := []string{"EAN13", "EAN8", "UPCA", "ITF", "CODE39", "CODE93", "CODE128", "CODABAR"}
+	case "upcean_multi":
+		// a private multi-format UPC/EAN reader built from hints that name all, one or no UPC/EAN format
+		names := []string{"EAN13", "EAN8", "UPCA", "UPCE"}
 		s := onedx.SymByName(names[rng.Intn(len(names))])
 		content, _, _ := onedx.Content(s.Name, rng)
-		bm, err := s.Writer().Encode(content, s.Format, 0, 10, nil)
+		bm, err := s.Writer().Encode(content, s.Format, 0, 10, map[gozxing.EncodeHintType]interface{}{gozxing.EncodeHintType_MARGIN: 14})
+		if err != nil {
+			return "err:" + err.Error()
+		}
+		var hints map[gozxing.DecodeHintType]interface{}
+		switch rng.Intn(4) {
+		case 0:
+		case 1:
+			hints = map[gozxing.DecodeHintType]interface{}{gozxing.DecodeHintType_TRY_HARDER: true}
+		case 2:
+			hints = map[gozxing.DecodeHintType]interface{}{gozxing.DecodeHintType_POSSIBLE_FORMATS: []gozxing.BarcodeFormat{gozxing.BarcodeFormat_QR_CODE}}
+		default:
+			hints = map[gozxing.DecodeHintType]interface{}{gozxing.DecodeHintType_POSSIBLE_FORMATS: []gozxing.BarcodeFormat{gozxing.BarcodeFormat_EAN_13, gozxing.BarcodeFormat_UPC_A, gozxing.BarcodeFormat_EAN_8, gozxing.BarcodeFormat_UPC_E}}
+		}
+		rd := oned.NewMultiFormatUPCEANReader(hints)
+		yield()
+		bmp, _ := gozxing.NewBinaryBitmapFromImage(bm)
+		r, err := rd.Decode(bmp, hints)
+		if err != nil {
+			return "err:" + err.Error()
+		}
+		return digestMatrix(bm) + "|" + r.GetText() + "|" + r.GetBarcodeFormat().String()
+	case "oned_rt":
+		names := []string{"EAN13", "EAN8", "UPCA", "ITF", "CODE39", "CODE93", "CODE128", "CODABAR", "UPCE", "CODE39X"}
+		s := onedx.SymByName(names[rng.Intn(len(names))])
+		content, _, _ := onedx.Content(s.Name, rng)
+		bm, err := s.Writer().Encode(content, s.Format, 0, 10, map[gozxing.EncodeHintType]interface{}{gozxing.EncodeHintType_MARGIN: 14})
 		if err != nil {
 			return "err:" + err.Error()
 		}
